@@ -184,6 +184,17 @@ class Prop:
             if verbose:
                 print(s)
         contracts = [c for c in self.contracts if (tier == 'thorough' or c.tier == 'quick')]
+        # contracts that stayed undecided (time limit) in a thorough run on the unchanged tree are not claimed: the committed list
+        # unclaimed_thorough.json names them (fn@build); they are skipped in the thorough tier and reported under not_covered.
+        # VERIF_TRY_UNCLAIMED=1 runs them anyway.
+        self._unclaimed = []
+        try:
+            uc = set(json.load(open(os.path.join(VERIF, 'unclaimed_thorough.json'))).get(self.id, []))
+        except Exception:
+            uc = set()
+        if uc and tier == 'thorough' and not os.environ.get('VERIF_TRY_UNCLAIMED'):
+            self._unclaimed = sorted(c.fn + '@' + c.build for c in contracts if (c.fn + '@' + c.build) in uc and c.tier != 'quick')
+            contracts = [c for c in contracts if not ((c.fn + '@' + c.build) in uc and c.tier != 'quick')]
         if only:
             contracts = [c for c in contracts if re.search(only, c.fn)]
         bf = os.environ.get('VERIF_BUILD_FILTER')   # debugging aid: restrict to builds matching a regex (treated like --only)
@@ -322,15 +333,16 @@ class Prop:
                 continue
             r = results[ckey]
             c_, sig, ens, fnd = jobmeta[ckey]
+            lab = c.fn if multi[c.fn] == 1 else '%s[%s]' % (c.fn, c.build)
             if r['status'] != 'done':
-                undecided.append('%s: %s %s' % (c.fn, r['status'], r['detail'][:500]))
+                undecided.append('%s: %s %s' % (lab, r['status'], r['detail'][:500]))
                 continue
             if r['clauses'].get('__canary') != 'FAILURE':
-                undecided.append('%s: canary clause did not fail (vacuous requires or unreachable exit)' % c.fn)
+                undecided.append('%s: canary clause did not fail (vacuous requires or unreachable exit)' % lab)
                 continue
             missing = [n for n, _ in ens if n not in r['clauses']]
             if missing:
-                undecided.append('%s: clauses without verdict: %s' % (c.fn, missing))
+                undecided.append('%s: clauses without verdict: %s' % (lab, missing))
                 continue
 
             def ob(name, status, **kw):
@@ -527,7 +539,9 @@ class Prop:
                 'tcheck': tstats or {},
                 'canaries': {fn: r['clauses'].get('__canary') for fn, r in results.items() if r.get('clauses')},
                 'samples': samples or [{'note': 'no obligation ran'}],
-                'not_covered': self.not_covered,
+                'not_covered': list(self.not_covered) + (['thorough-tier contracts attempted and left undecided within the time limit on the unchanged tree '
+                                                          '(not claimed; unclaimed_thorough.json): ' + ', '.join(getattr(self, '_unclaimed', []))]
+                                                         if getattr(self, '_unclaimed', None) else []),
                 'solver_seconds_total': round(sum(r.get('solver_s', 0) for r in results.values()), 2),
             },
             'assumptions': self.assumptions,
